@@ -21,6 +21,7 @@ def run(chk):
             t, _ = mutate.mutate(rng, rs[0], 1)
             if "\x00" not in t:
                 texts.append(t)
+    texts += X.interaction_texts()
     texts += X.corpus_lines("C04", "found.txt")
     impl_rt, model_rt = lib.both([lib.req("roundtrip", t) for t in texts], resume=True)
     impl_pr, model_pr = lib.both([lib.req("print", t) for t in texts], resume=True)
